@@ -62,10 +62,12 @@ func (t *TransactionManager) Confirm(id string) error {
 	verifYield("tm.confirm")
 	t.tmMutex.Lock()
 	defer t.tmMutex.Unlock()
-	if t.transaction == nil {
-		return fmt.Errorf("no ongoing transaction")
+	// make sure the given id is the id of the ongoing transaction, before touching the transaction
+	transaction, err := t.GetTransaction(id)
+	if err != nil {
+		return err
 	}
-	err := t.transaction.Confirm()
+	err = transaction.Confirm()
 	if err != nil {
 		return err
 	}
@@ -76,12 +78,14 @@ func (t *TransactionManager) Cancel(ctx context.Context, id string) error {
 	verifYield("tm.cancel")
 	t.tmMutex.Lock()
 	defer t.tmMutex.Unlock()
-	if t.transaction == nil {
-		return fmt.Errorf("no ongoing transaction")
+	// make sure the given id is the id of the ongoing transaction, before triggering the rollback
+	transaction, err := t.GetTransaction(id)
+	if err != nil {
+		return err
 	}
-	rollbacktransAction := t.transaction.GetRollbackTransaction()
+	rollbacktransAction := transaction.GetRollbackTransaction()
 
-	_, err := t.rollbacker.TransactionRollback(ctx, rollbacktransAction, false)
+	_, err = t.rollbacker.TransactionRollback(ctx, rollbacktransAction, false)
 	if err != nil {
 		return err
 	}
